@@ -79,9 +79,30 @@ func mkCA(cn string, serial int64) (*x509.Certificate, *ecdsa.PrivateKey, []byte
 	return c, k, certPEM(der)
 }
 func mkLeaf(cn string, serial int64, parent *x509.Certificate, parentKey *ecdsa.PrivateKey, client bool) ([]byte, []byte) {
-	k, _ := ecdsa.GenerateKey(elliptic.P256(), rand.Reader)
-	tpl := &x509.Certificate{SerialNumber: big.NewInt(serial), Subject: pkix.Name{CommonName: cn}, NotBefore: time.Now().Add(-time.Hour),
-		NotAfter: time.Now().Add(24 * time.Hour), KeyUsage: x509.KeyUsageDigitalSignature,
+	return mkLeafKey(cn, serial, parent, parentKey, client, nil)
+}
+
+// leafKeyGroup: which private key a server leaf uses.  Leaves 1, 2, 7 are renewals of one another (same key, new
+// serial and validity - what ACME clients and internal CAs commonly issue), so are 3, 4, 8; 5 and 6 have keys of their
+// own.  All server leaves carry the same subject, so a switch between groups is "new key, same subject".
+func leafKeyGroup(id int) int {
+	switch id {
+	case 1, 2, 7:
+		return 0
+	case 3, 4, 8:
+		return 1
+	default:
+		return id
+	}
+}
+
+// mkLeafKey issues a leaf for the given key (a fresh one when k is nil).
+func mkLeafKey(cn string, serial int64, parent *x509.Certificate, parentKey *ecdsa.PrivateKey, client bool, k *ecdsa.PrivateKey) ([]byte, []byte) {
+	if k == nil {
+		k, _ = ecdsa.GenerateKey(elliptic.P256(), rand.Reader)
+	}
+	tpl := &x509.Certificate{SerialNumber: big.NewInt(serial), Subject: pkix.Name{CommonName: cn}, NotBefore: time.Now().Add(-time.Hour - time.Duration(serial%16)*time.Minute),
+		NotAfter: time.Now().Add(24*time.Hour + time.Duration(serial%16)*time.Minute), KeyUsage: x509.KeyUsageDigitalSignature,
 		DNSNames: []string{"localhost"}, IPAddresses: []net.IP{net.ParseIP("127.0.0.1")}}
 	if client {
 		tpl.ExtKeyUsage = []x509.ExtKeyUsage{x509.ExtKeyUsageClientAuth}
@@ -102,8 +123,13 @@ func getPKI() *pki {
 		p := &pki{serverPEM: map[int][2][]byte{}, clients: map[string]tls.Certificate{}, pathCAPEM: map[int][]byte{}}
 		p.ca, p.caKey, p.caPEM = mkCA("verif CA", 1000)
 		p.otherCA, p.otherKey, p.otherCAPEM = mkCA("other CA", 1001)
+		groupKey := map[int]*ecdsa.PrivateKey{}
 		for id := 1; id <= 8; id++ {
-			c, k := mkLeaf("localhost", int64(id), p.ca, p.caKey, false)
+			g := leafKeyGroup(id)
+			if groupKey[g] == nil {
+				groupKey[g], _ = ecdsa.GenerateKey(elliptic.P256(), rand.Reader)
+			}
+			c, k := mkLeafKey("localhost", int64(id), p.ca, p.caKey, false, groupKey[g])
 			p.serverPEM[id] = [2][]byte{c, k}
 		}
 		for name, par := range map[string]*x509.Certificate{"SelfSigned": nil, "CASigned": p.ca, "OtherCASigned": p.otherCA} {
@@ -439,6 +465,7 @@ func runC30rot(c0 int, gen func(step int, accessible []int) (rotOp, bool), cNew 
 	objs := map[int]*absnfs.TLSConfig{0: user}
 	nobjs := 2
 	first := leaf()
+	onDisk := map[int]int{1: c0}
 	var steps, txt []string
 	derived := true
 	for step := 0; ; step++ {
@@ -471,6 +498,14 @@ func runC30rot(c0 int, gen func(step int, accessible []int) (rotOp, bool), cNew 
 		case 3:
 			writeServerPair(dir, o.path, o.leaf)
 			tags["op_write"]++
+			if prev, ok := onDisk[o.path]; ok && prev != o.leaf {
+				if leafKeyGroup(prev) == leafKeyGroup(o.leaf) {
+					tags["write_same_key_renewal"]++
+				} else {
+					tags["write_new_key_same_subject"]++
+				}
+			}
+			onDisk[o.path] = o.leaf
 		case 4:
 			if err := srv.UpdateExportOptions(absnfs.ExportOptions{TLS: objs[o.i]}); err != nil {
 				panic(err)
@@ -495,6 +530,11 @@ func runC30rot(c0 int, gen func(step int, accessible []int) (rotOp, bool), cNew 
 		tags["steps"]++
 	}
 	// the documented rotation step
+	if leafKeyGroup(onDisk[1]) == leafKeyGroup(cNew) {
+		tags["final_rotation_same_key_renewal"]++
+	} else {
+		tags["final_rotation_new_key"]++
+	}
 	writeServerPair(dir, 1, cNew)
 	rotOK := false
 	if t := srv.GetExportOptions().TLS; t != nil {
@@ -539,7 +579,11 @@ func genC30rot(r *Rand, idx int, tier string) Case {
 		case x < 60:
 			return rotOp{kind: 2, i: pick()}, true
 		case x < 80:
-			cur = 1 + (cur+r.Intn(4))%6
+			if r.Chance(50) { // renewal for the same private key (1<->2, 3<->4), else another leaf (new key, same subject)
+				cur = map[int]int{1: 2, 2: 1, 3: 4, 4: 3, 5: 1, 6: 3}[cur]
+			} else {
+				cur = 1 + (cur+r.Intn(4))%6
+			}
 			return rotOp{kind: 3, path: 1 + r.Intn(2)*boolInt(!derivedOnly || r.Chance(20)), leaf: cur}, true
 		case x < 90 || derivedOnly:
 			return rotOp{kind: 4, i: pick()}, true
@@ -549,7 +593,7 @@ func genC30rot(r *Rand, idx int, tier string) Case {
 			return rotOp{kind: 6, path: 1 + r.Intn(2), enabled: !r.Chance(20)}, true
 		}
 	}
-	return runC30rot(c0, gen, 7+r.Intn(2), kind, idx)
+	return runC30rot(c0, gen, 7+r.Intn(2), kind, idx) // 7 renews the key of leaves 1, 2; 8 that of leaves 3, 4
 }
 func boolInt(b bool) int {
 	if b {
@@ -576,5 +620,10 @@ func corpusC30rot() []Case {
 		// scope: a caller-made TLSConfig installed at runtime / TLS dropped at runtime
 		runC30rot(1, fixedOps([]rotOp{{kind: 6, path: 1, enabled: true}, {kind: 4, i: 2}}), 7, "foreign-settings-installed", 2),
 		runC30rot(1, fixedOps([]rotOp{{kind: 5}}), 7, "tls-dropped-at-runtime", 3),
+		// seeded C30-4: renewals for the SAME private key (new serial) - reloaded through the caller's original object
+		// (index 0), then through GetExportOptions().TLS (index 2), then the documented step to another same-key leaf
+		runC30rot(1, fixedOps([]rotOp{{kind: 3, path: 1, leaf: 2}, {kind: 2, i: 0}, {kind: 0}, {kind: 3, path: 1, leaf: 1}, {kind: 2, i: 2}}), 7, "same-key-renewals", 4),
+		// the converse: new key, same subject, then back to a renewal of the first key
+		runC30rot(3, fixedOps([]rotOp{{kind: 3, path: 1, leaf: 5}, {kind: 2, i: 0}, {kind: 3, path: 1, leaf: 4}, {kind: 0}, {kind: 2, i: 2}}), 8, "new-key-same-subject-then-renewal", 5),
 	}
 }
